@@ -147,6 +147,14 @@ def seg_dist(c, A, B):
     return float(np.hypot(*(A + t * d - c)))
 
 
+def tri_cond(A, M, B):
+    """relative change of the circumradius (and so of r*phi) of the circle through A, M, B per unit displacement of a
+    point: R = abc / 4K, so dR/R <= 3 d / (shortest edge) + 2 d / (height of the triangle over its longest edge)"""
+    e = [float(np.hypot(*(np.asarray(q) - np.asarray(p)))) for p, q in ((A, M), (M, B), (B, A))]
+    K = 0.5 * abs((M[0] - A[0]) * (B[1] - A[1]) - (M[1] - A[1]) * (B[0] - A[0]))
+    return 3.0 / min(e) + 2.0 * max(e) / (2.0 * K)
+
+
 class Curve:
     """One simple closed curve: nodes P[i] (counter-clockwise), edge i runs P[i] -> P[i+1] and is either
     straight (None) or a 3-point arc given by its on-arc mid point. kind == 'circle' is a single closed Arc
@@ -177,6 +185,7 @@ class Curve:
             self.centroid = np.array(c)
             self.arc_info = [(c, r, 0.0, 2 * math.pi)]
             self.n_line_edges = 0
+            self.len_cond = self.perimeter * tri_cond(*self.nodes)
             return
         P = self.nodes
         n = len(P)
@@ -187,6 +196,7 @@ class Curve:
         ref = []  # fine reference polygon for the centroid
         self.arc_info = []
         self.n_line_edges = 0
+        self.len_cond = 0.0
         for i in range(n):
             A, B = P[i], P[(i + 1) % n]
             if self.mids[i] is None:
@@ -197,6 +207,7 @@ class Curve:
                 c, r, a0, phi = arc_params(A, self.mids[i], B)
                 area += 0.5 * r * r * (phi - math.sin(phi))
                 per += r * abs(phi)
+                self.len_cond += r * abs(phi) * tri_cond(A, self.mids[i], B)
                 blo, bhi = arc_bounds(c, r, a0, phi)
                 lo = np.minimum(lo, blo)
                 hi = np.maximum(hi, bhi)
@@ -246,6 +257,9 @@ class Drawing:
         self.cmax = float(max(np.abs(c.bounds).max() for c in self.curves))
         self.bounds = np.array([np.min([c.bounds[0] for c in self.curves], axis=0), np.max([c.bounds[1] for c in self.curves], axis=0)])
         self.scale = float(np.hypot(*(self.bounds[1] - self.bounds[0])))
+        # dimensionless conditioning of the total length w.r.t. a displacement of the stored coordinates: every chord end
+        # counts once, every arc with the conditioning of its circumcircle
+        self.len_cond = sum(c.len_cond for c in self.curves) + 2.0 * sum(len(c.nodes) for c in self.curves)
         # smallest distance between two distinct control points of one curve (nodes, arc mid points)
         mf = np.inf
         for c in self.curves:
